@@ -1,4 +1,5 @@
 """C18 — GFF3/GTF/BED round trip with escaping (DESIGN.md §5 C18)."""
+import json
 import re
 
 from .. import a10
@@ -175,8 +176,29 @@ def run(ctx):
                 t = blk["t"]
                 if t[0] == "sw":
                     vals |= {v for v, _tg in t[2] if isinstance(v, int)}
-        if 0x22 in vals and 0x5c in vals:
-            ctx.ok("C18.R3", fps.key + " :: the closing-quote scan knows the escape character", "compares with 0x22 and 0x5c", fps.loc())
+                elif t[0] == "call":
+                    for o in t[1].get("args") or []:
+                        k = C.op_const(o)
+                        if k is not None and k.get("ty") == "u8" and isinstance(k.get("v"), int):
+                            vals.add(k["v"])
+        # whether a quotation mark is escaped depends on the parity of the backslashes before it (`\\\\"` closes, `\\"` does not): the scan
+        # carries a state that is set by an escape byte and cleared by the byte after it (a bool place stored with both constants)
+        stores = {}
+        for g in fb.family(fps.key):
+            for blk in g.blocks:
+                for st in blk["s"]:
+                    if st[0] == "=" and st[2][0] == "use":
+                        k = C.op_const(st[2][1])
+                        if k is not None and k.get("ty") == "bool" and st[1][0] != 0:
+                            stores.setdefault((g.key, json.dumps(st[1])), set()).add(k.get("v"))
+        stateful = any(v >= {0, 1} for v in stores.values())
+        if 0x22 in vals and 0x5c in vals and not stateful:
+            ctx.violation("C18.R3", "C18.R3/tokenizer-escape-not-stateful/" + fps.key,
+                          "parse_string compares with the escape character but carries no escaped/unescaped state through the scan: looking only "
+                          "at the byte before a quotation mark takes the second half of an escaped backslash for an escape, so a value ending "
+                          "with a backslash (written as `\\\\\"`) is not closed where the writer closed it", fps.loc())
+        elif 0x22 in vals and 0x5c in vals:
+            ctx.ok("C18.R3", fps.key + " :: the closing-quote scan knows the escape character and carries an escape state", "compares with 0x22 and 0x5c", fps.loc())
         elif 0x22 in vals:
             ctx.violation("C18.R3", "C18.R3/tokenizer-ignores-escape/" + fps.key,
                           "parse_string ends a quoted GTF value at the first `\"` without regard to a preceding backslash, while the writer emits "
